@@ -19,15 +19,15 @@ def one(sdir):
     wt = '/tmp/wt/recheck-%d-%d' % (os.getppid(), ident[0] if ident else 0)     # several runs may be going on at once
     if not os.path.isdir(wt):
         sh('git -C /repo worktree add --detach %s HEAD -q' % wt)
-    sh('git checkout -q -- . && git clean -fdq', cwd=wt)
+    sh('git reset -q --hard && git clean -fdq', cwd=wt)
     prop = os.path.basename(sdir)[:3]
-    rc, out = sh('git apply %s' % os.path.join(sdir, 'patch.diff'), cwd=wt)
+    rc, out = sh('git apply %s 2>/dev/null || (git reset -q --hard && git apply --3way %s)' % ((os.path.join(sdir, 'patch.diff'),) * 2), cwd=wt)    # a later fix: commit may have moved the context: three-way merge on the recorded blobs
     if rc != 0:
         return sdir, 'patch-does-not-apply', ''
     try:
         rc, out = sh([sys.executable, os.path.join(HERE, 'vcheck.py'), prop, '--tier', 'quick', '--no-evidence', '--jobs', '6'], env={'PRYSM_REPO': wt}, cwd=HERE)
     finally:
-        sh('git checkout -q -- . && git clean -fdq', cwd=wt)
+        sh('git reset -q --hard && git clean -fdq', cwd=wt)
     line = [l.strip()[:160] for l in out.splitlines() if 'bucket=' in l][:1]
     return sdir, {0: 'MISSED', 1: 'caught'}.get(rc, 'harness-%d' % rc), (line[0] if line else '')
 
